@@ -209,6 +209,9 @@ def relabel_case(draw, tier):
         a = 2.0 ** draw(st.integers(-10, 10))
     return {"N": N, "mode": mode, "cfg": cfg, "fs": draw(st.sampled_from([1.0, 2.0, 0.37, 100.0])), "a": a,
             "single": single, "fbin": draw(st.floats(0.01, 0.49)), "L": draw(st.integers(2, N)),
+            # the relabelled analysis: a new analyzer built with a*fs, or the public `fs` attribute of a freshly built
+            # analyzer set to a*fs before anything was planned or computed
+            "route": draw(st.sampled_from(["new", "new", "set_fs"])),
             "rec": draw(gens.pair(N, rel_kinds=["indep", "partial", "delay"]) if mode == "csd" else gens.record(N))}
 
 
@@ -220,13 +223,18 @@ def oracle_relabel(case):
     else:
         x, y = gens.materialise(case["rec"]), None
         data = x
-    an0, an1 = gens.make_analyzer(data, fs, cfg), gens.make_analyzer(data, a * fs, cfg)
+    an0 = gens.make_analyzer(data, fs, cfg)
+    if case.get("route") == "set_fs":
+        an1 = gens.make_analyzer(data, fs, cfg)
+        an1.fs = float(a * fs)
+    else:
+        an1 = gens.make_analyzer(data, a * fs, cfg)
     if case["single"]:
         r0 = an0.compute_single_bin(case["fbin"] * fs, L=case["L"])
         r1 = an1.compute_single_bin(case["fbin"] * fs * a, L=case["L"])
     else:
         r0, r1 = an0.compute(), an1.compute()
-    viol, labels = [], ["relabel:single" if case["single"] else "relabel:full:" + cfg["scheduler"]]
+    viol, labels = [], ["relabel:single" if case["single"] else "relabel:full:" + cfg["scheduler"], "relabel:route=" + case.get("route", "new")]
     same_plan = (len(r0.f) == len(r1.f) and np.array_equal(np.asarray(r0.L), np.asarray(r1.L))
                  and all(np.array_equal(np.asarray(p), np.asarray(q)) for p, q in zip(r0.D, r1.D)))
     if not same_plan:
